@@ -250,6 +250,73 @@ pub fn run(ctx: &Ctx) -> Rep {
         rep.evaluations += marked_hands * 2;
         rep.add("two_card_hands_with_marks_read_like_the_unmarked_hand", marked_hands);
     }
+    // the suit reads the same through the five-card flush test too (method and deprecated free function): every
+    // single-suit hand and a seeded sample of other hands, with the same mark on all five cards (each of the seven
+    // combinations) and with seeded marks per card, is a flush exactly when the unmarked hand is
+    {
+        use ckc_rs::cards::five::Five;
+        let mut rng = drive::Rng::new(ctx.seed, 0xC20_F105);
+        let mut hands: Vec<[u8; 5]> = Vec::new();
+        if !ctx.smoke() {
+            for mask in 0u32..(1 << 13) {
+                if mask.count_ones() != 5 {
+                    continue;
+                }
+                let ranks: Vec<u8> = (0..13u8).filter(|r| mask >> r & 1 == 1).collect();
+                for suit in 0..4u8 {
+                    hands.push([model::idx(ranks[0], suit), model::idx(ranks[1], suit), model::idx(ranks[2], suit), model::idx(ranks[3], suit), model::idx(ranks[4], suit)]);
+                }
+            }
+        }
+        for _ in 0..if ctx.smoke() { 20 } else { 4000 } {
+            let mut h = [0u8; 5];
+            let mut k = 0;
+            while k < 5 {
+                let x = rng.below(52) as u8;
+                if !h[..k].contains(&x) {
+                    h[k] = x;
+                    k += 1;
+                }
+            }
+            hands.push(h);
+        }
+        let mut flush_reads = 0u64;
+        let r = drive::guard(|| {
+            for h in &hands {
+                let w: Vec<u32> = h.iter().map(|&i| model::word(i)).collect();
+                let plain = [w[0], w[1], w[2], w[3], w[4]];
+                let want = model::suit_of(h[0]) == model::suit_of(h[1]) && model::suit_of(h[1]) == model::suit_of(h[2]) && model::suit_of(h[2]) == model::suit_of(h[3]) && model::suit_of(h[3]) == model::suit_of(h[4]);
+                for variant in 0..10u32 {
+                    let mut m = plain;
+                    for x in m.iter_mut() {
+                        let marks = match variant {
+                            0 => 0,
+                            1..=7 => variant,
+                            _ => rng.below(8) as u32,
+                        };
+                        *x |= marks << 29;
+                    }
+                    #[allow(deprecated)]
+                    let got = (Five::from(m).is_flush(), ckc_rs::evaluate::is_flush(m));
+                    flush_reads += 2;
+                    if got != (want, want) {
+                        rep.violation(
+                            "a marked card's suit reads the same (through the five-card flush test)",
+                            "Five::is_flush / evaluate::is_flush",
+                            Input::Words(m.to_vec()),
+                            format!("{} as for the unmarked hand", want),
+                            format!("method {} / free function {}", got.0, got.1),
+                        );
+                    }
+                }
+            }
+        });
+        if let Err(msg) = r {
+            rep.violation("panic", "is_flush on marked cards", Input::None, "normal return".into(), msg);
+        }
+        rep.evaluations += flush_reads;
+        rep.add("flush_tests_on_marked_five_card_hands", flush_reads);
+    }
     rep.add("mark_sequences_per_card(length 0..=4 over pair/trips/quads, every order)", seqs.len() as u64);
     rep.add("distinct_marked_words_produced", words.len() as u64);
     let c = model::word(0);
